@@ -420,6 +420,7 @@ pub fn c02_probes() -> Vec<(&'static str, String)> {
         ("tuple-literal-index", "def first(t: tuple[int, int]) -> int:\n    return t[0] + t[-1]\n\ndef main() -> None:\n    u = (3, 4)\n    print(first(u))\n    print(u[1])\n".to_string()),
         ("list-count-method", p("    xs = [1, 2, 1]\n    c = xs.count(1)\n    print(c)\n")),
         ("annotated-none-binding", p("    o: Option[int] = None\n    match o:\n        Some(v) => print(v)\n        None => print(0)\n")),
+        ("mut-scalar-parameter", "def count(mut n: int) -> int:\n    mut steps = 0\n    while n > 0:\n        n -= 1\n        steps += 1\n    return steps\n\ndef acc(mut y: float, n: int) -> float:\n    y += n\n    return y\n\ndef flip(mut b: bool) -> bool:\n    b = not b\n    return b\n\nclass K:\n    v: int\n\n    def addn(self, mut n: int, mut f: float) -> float:\n        n += 1\n        f += n\n        return f + self.v\n\ndef main() -> None:\n    k = 5\n    print(count(k))\n    print(k)\n    print(acc(7.5, 2))\n    print(flip(true))\n    print(K(v=1).addn(k, 0.5))\n".to_string()),
         ("default-parameter-omitted", "def f(a: int, b: int = 2) -> int:\n    return a + b\n\ndef main() -> None:\n    print(f(1))\n".to_string()),
         ("mutating-builtin-on-immutable-collection", p("    xs = [1]\n    xs.append(2)\n    print(len(xs))\n")),
         ("type-name-as-value-argument", "type Pos = newtype int\n\ndef show(p: Pos) -> None:\n    print(1)\n\ndef main() -> None:\n    f = Pos\n    show(f)\n".to_string()),
@@ -433,6 +434,9 @@ pub fn c02_negative() -> Vec<(&'static str, String)> {
         ("bare-return-in-int-function", p("def f(n: int) -> int:\n    if n > 0:\n        return\n    return 1\n")),
         ("return-value-in-none-function", p("def f(n: int) -> None:\n    return n\n")),
         ("return-str-in-int-function", p("def f(n: int) -> int:\n    return \"s\"\n")),
+        ("parameter-default-wrong-type", p("def f(n: int = \"s\") -> int:\n    return n\n")),
+        ("method-parameter-default-wrong-type", p("class Kd:\n    v: int\n\n    def m(self, n: int = \"s\") -> int:\n        return n\n")),
+        ("append-wrong-element-type", p("def f() -> int:\n    mut xs: List[int] = []\n    xs.append(\"s\")\n    return len(xs)\n")),
         ("if-condition-not-bool", p("def f(n: int) -> int:\n    if n:\n        return 1\n    return 0\n")),
         ("while-condition-not-bool", p("def f(n: int) -> int:\n    while n:\n        return 1\n    return 0\n")),
         ("assign-str-to-int-annotation", p("def f() -> int:\n    v: int = \"s\"\n    return 1\n")),
